@@ -4,5 +4,7 @@ WMax == 3
 \* records with 0..2 runs over two minimiser values (collisions on the same key)
 RunLists == {<<>>, <<<<7, 0, 4>>>>, <<<<7, 0, 4>>, <<9, 2, 6>>>>, <<<<9, 0, 5>>, <<9, 7, 12>>>>}
 RecLists == UNION {[1..n -> RunLists] : n \in 0..3}
-Cfgs == {[mode |-> md, runs |-> r, nw |-> nw] : md \in {"s2m", "m2s"}, r \in RecLists, nw \in 1..WMax}
+\* ids: every record its own name, or all records the same name
+Cfgs == {[mode |-> md, runs |-> r, nw |-> nw, ids |-> [i \in 1..Len(r) |-> IF dup THEN 0 ELSE i - 1]] :
+           md \in {"s2m", "m2s"}, r \in RecLists, nw \in 1..WMax, dup \in BOOLEAN}
 =============================================================================
